@@ -11,6 +11,7 @@ mod fault;
 mod frames;
 mod gen;
 mod names;
+mod obstacle;
 mod pair;
 mod script;
 mod sigkill;
@@ -382,6 +383,7 @@ fn main() {
         "names" => names::cmd(&args),
         "frames" => frames::cmd(&args),
         "codec" => codec::cmd(&args),
+        "obstacle" => obstacle::cmd(&args),
         "sigkill" => sigkill::cmd(&args),
         "killchild" => sigkill::child(&args),
         _ => {
